@@ -97,7 +97,12 @@ Definition mon_wf (c : tcase) : bool :=
                            | OBoundary => (o_check ob =? 0) && Nat.eqb (check_consistency (o_tree ob)) 0
                            | _ => true end) (t_steps c).
 
-(* m2/m3: after de-duplication exactly one non-seed node per URL, and no URL lost or invented *)
+(* m2/m3: after de-duplication exactly one non-seed node per URL, and no URL lost or invented.
+   m2 (unique) is checked at EVERY ODedupe step whose input tree (the tree observed before the
+   step) has unique ids - pipeline-shaped or not: that is the hypothesis of
+   Props/C11.v C11_dedupe_unique_all (Tree/DedupeAll.v), which needs nothing else.
+   m3 (keeps) holds in the state Inv0 only (C11_dedupe_keeps; outside it a URL can vanish with a
+   detached subtree), so it stays restricted to pipeline-shaped sequences. *)
 Fixpoint mon_dedupe_from (prev : item) (steps : list (op * obs)) : bool * bool :=
   match steps with
   | [] => (true, true)
@@ -105,13 +110,13 @@ Fixpoint mon_dedupe_from (prev : item) (steps : list (op * obs)) : bool * bool :
     let '(u, k) := mon_dedupe_from (o_tree ob) r in
     match o with
     | ODedupe =>
-      (nodupN (nonseed_urls (o_tree ob)) && u,
+      ((negb (nodupN (ids prev)) || nodupN (nonseed_urls (o_tree ob))) && u,
        subsetN (nonseed_urls prev) (nonseed_urls (o_tree ob))
        && subsetN (nonseed_urls (o_tree ob)) (nonseed_urls prev) && k)
     | _ => (u, k)
     end
   end.
-Definition mon_dedupe_unique (c : tcase) : bool := negb (t_pipe c) || fst (mon_dedupe_from dummy (t_steps c)).
+Definition mon_dedupe_unique (c : tcase) : bool := fst (mon_dedupe_from dummy (t_steps c)).
 Definition mon_dedupe_keeps (c : tcase) : bool := negb (t_pipe c) || snd (mon_dedupe_from dummy (t_steps c)).
 
 (* m4: declared complete <-> no node awaits fetching or post-processing *)
